@@ -771,6 +771,17 @@ static HistRes c06Run(uint64_t sub, const ParamSet& cfg, int nsteps, bool count)
          applyOp(c, op);
          curCall = c.name + "+accessors";
          if(count && !c.name.empty()) S.count("c06.op." + c.name);
+         if(verbose && count)
+         {
+            fprintf(stderr, "step %d: %s -> %dx%d sense %d hasBasis %d loaded %d basisstat %d |", step, c.name.c_str(), M.m, M.n, M.sense, (int)sp.hasBasis(), (int)sp._isRealLPLoaded, (int)sp._solver.basis().status());
+            if(sp.hasBasis() && sp.numRows() == M.m && sp.numCols() == M.n)
+            {
+               for(int i = 0; i < M.m; i++) fprintf(stderr, " r%d=%d", i, (int)sp.basisRowStatus(i));
+               for(int j = 0; j < M.n; j++) fprintf(stderr, " c%d=%d", j, (int)sp.basisColStatus(j));
+            }
+            fprintf(stderr, "\n");
+            if(step >= 36) fprintf(stderr, "%s", M.toLPText().c_str());
+         }
          if(!c.err.empty())
          {
             fail("perm." + c.err.substr(0, c.err.find(':')), c.err.substr(c.err.find(':') + 1) + " (step " + std::to_string(step) + ")", step);
@@ -804,6 +815,7 @@ static HistRes c06Run(uint64_t sub, const ParamSet& cfg, int nsteps, bool count)
          sp.optimize();
          int st = (int)sp.status();
          double v = sp.hasSol() ? sp.objValueReal() : 0;
+         if(verbose && count) fprintf(stderr, "step %d: optimize -> %s %.10g iters %d\n%s", step, statusName(st), v, sp.numIterations(), step >= 0 ? M.toLPText().c_str() : "");
          if(count)
          {
             S.count("c06.solves");
